@@ -114,6 +114,7 @@ def labels_for(problem):
         "complex" if cplx else "real",
         f"K={problem['K']}",
     ]
+    st_ = [[i for i, a in enumerate(problem["assign"]) if a == b] for b in range(len(problem["blocks"]))]
     if 1 in problem["blocks"]:
         labs.append("has-size-1-block")
     if problem["assign"] != sorted(problem["assign"]):
@@ -122,11 +123,19 @@ def labels_for(problem):
         labs.append("higher-order-input-terms")
     if any(e == 0 for e in problem["energy"]):
         labs.append("zero-energy-level")
+    zb = [b for b, s in enumerate(st_) if all(problem["energy"][i] == 0 and problem["eimag"][i] == 0 for i in s)]
+    if zb:
+        labs.append("zero-H0-block")
+        if any(b > 0 for b in zb):
+            labs.append("zero-H0-block-not-first")
     if problem.get("ref_shift"):
         labs.append("far-offset-spectrum")
     if problem.get("int_dtype"):
         labs.append("integer-dtype")
-    st_ = [[i for i, a in enumerate(problem["assign"]) if a == b] for b in range(len(problem["blocks"]))]
+    if "form" in problem:
+        labs.append("form=" + problem["form"])
+        if problem["repr"] == "sparse":
+            labs.append("sparse=" + ("spmatrix" if problem.get("spmatrix") else "sparray"))
     if any(len({(problem["energy"][i], problem["eimag"][i]) for i in s}) < len(s) for s in st_):
         labs.append("degenerate-level-in-block")
     return labs
